@@ -406,5 +406,14 @@ func requireFuncs(w *World, r *Report, names ...string) (map[string]*ssa.Functio
 	ReportStateless(w, r, live...)
 	ReportIdxWidth(w, r, names...)
 	ReportWordWidth(w, r, names...)
+	seenPkg := map[string]bool{}
+	var shorts []string
+	for _, n := range names {
+		if i := strings.Index(n, "."); i > 0 && !seenPkg[n[:i]] {
+			seenPkg[n[:i]] = true
+			shorts = append(shorts, n[:i])
+		}
+	}
+	ReportConstWidth(w, r, shorts...)
 	return out, all
 }
